@@ -8,10 +8,11 @@ proved **once, for every coordinate type** that is a decidable linear order with
 shifts only, group laws of `+`/`-` (`ShiftLaws`).  `Props/C20Inst.lean` instantiates the theorems
 at `Int` (`int`), `UInt32` (`unsigned`, arithmetic modulo 2^32) and `Rat` (`double`).
 
-Universe: end points `≥ 0` (the property's universe; automatic for `unsigned`).  With negative
-coordinates `sliceWith`'s reset to `[0,0[` makes the comparator inconsistent
-(`C20.comparator_inconsistent_negative` in `C20Inst.lean` is the witness), which is outside the
-property's quantifier.
+No restriction on the sign of the coordinates: since the audit repair of `clean_` (empty ranges
+are dropped *before* `std::sort`) the comparator is only ever applied to non-empty pairwise
+disjoint ranges (`sort_input_ok`), on which it is a strict weak order whatever the sign.  Before the
+repair the `[0,0[` written by `sliceWith` next to a stored range straddling 0 made it inconsistent
+(`comparator_inconsistent_negative` in `C20Inst.lean`) and `std::sort` crashed.
 -/
 set_option linter.unusedSectionVars false
 namespace Bpp.C20
@@ -116,6 +117,29 @@ theorem contains_endpoints (x r : Range α) : x.contains r = true ↔ (x.b ≤ r
 theorem contiguous_iff (x r : Range α) : x.isContiguous r = true ↔ (r.b = x.e ∨ r.e = x.b) := by
   simp [Range.isContiguous]
 
+/-- `overlap` is symmetric (so `overlap_empty` also covers an empty *first* operand) -/
+theorem overlap_comm (x r : Range α) : x.overlap r = r.overlap x := by
+  simp only [Range.overlap]; exact Bool.and_comm _ _
+
+/-- contiguity in interval arithmetic (not the definition restated): two non-empty ranges are
+contiguous iff they share no point and their union is the whole hull `[min b, max e[` -/
+theorem contiguous_spec (x r : Range α) (hx : x.b < x.e) (hr : r.b < r.e) :
+    x.isContiguous r = true ↔
+      (¬ ∃ p, mem p x ∧ mem p r) ∧
+      ∀ p, ((x.b ≤ p ∨ r.b ≤ p) ∧ (p < x.e ∨ p < r.e)) → mem p x ∨ mem p r := by
+  rw [contiguous_iff]; unfold mem
+  constructor
+  · intro h
+    refine ⟨?_, ?_⟩
+    · rintro ⟨p, hp⟩; grind
+    · intro p hp; grind
+  · rintro ⟨h1, h2⟩
+    have a1 := h2 x.e
+    have a2 := h2 r.e
+    have b1 : ¬ (x.b ≤ x.b ∧ x.b < x.e ∧ r.b ≤ x.b ∧ x.b < r.e) := fun h => h1 ⟨x.b, ⟨h.1, h.2.1⟩, h.2.2⟩
+    have b2 : ¬ (x.b ≤ r.b ∧ r.b < x.e ∧ r.b ≤ r.b ∧ r.b < r.e) := fun h => h1 ⟨r.b, ⟨h.1, h.2.1⟩, h.2.2⟩
+    grind
+
 /-- what the predicates of `Range` mean in interval arithmetic on half-open intervals -/
 def RangePreds (x r : Range α) : Prop :=
   (x.isEmpty = true ↔ ∀ p, ¬ mem p x) ∧
@@ -123,13 +147,17 @@ def RangePreds (x r : Range α) : Prop :=
   (r.b = r.e → (x.overlap r = true ↔ (x.b < r.b ∧ r.b < x.e))) ∧
   (r.b < r.e → (x.contains r = true ↔ ∀ p, mem p r → mem p x)) ∧
   (x.contains r = true ↔ (x.b ≤ r.b ∧ r.e ≤ x.e)) ∧
-  (x.isContiguous r = true ↔ (r.b = x.e ∨ r.e = x.b))
+  (x.isContiguous r = true ↔ (r.b = x.e ∨ r.e = x.b)) ∧
+  (x.b < x.e → r.b < r.e → (x.isContiguous r = true ↔
+    (¬ ∃ p, mem p x ∧ mem p r) ∧
+    ∀ p, ((x.b ≤ p ∨ r.b ≤ p) ∧ (p < x.e ∨ p < r.e)) → mem p x ∨ mem p r)) ∧
+  x.overlap r = r.overlap x
 
 /-- **range_preds**: `overlap`, `contains`, `isContiguous`, `isEmpty` agree with interval
 arithmetic on half-open intervals -/
 theorem range_preds (x r : Range α) (hx : x.b ≤ x.e) (_hr : r.b ≤ r.e) : RangePreds x r :=
   ⟨isEmpty_iff x hx, overlap_iff x r, overlap_empty x r, contains_iff x r, contains_endpoints x r,
-    contiguous_iff x r⟩
+    contiguous_iff x r, contiguous_spec x r, overlap_comm x r⟩
 
 /-- slicing is intersection, for all (possibly empty) well-formed operands -/
 theorem slice_spec (x r : Range α) (hx : x.b ≤ x.e) (hr : r.b ≤ r.e) :
@@ -179,11 +207,11 @@ theorem shift_length [Add α] [Sub α] [ShiftLaws α] (x : Range α) (v : α) : 
 
 /-! ## MultiRange: one step -/
 
-/-- the admissible arguments: built by the normalising constructor from non-negative end points -/
-def Arg (r : Range α) : Prop := r.b ≤ r.e ∧ 0 ≤ r.b
+/-- the admissible arguments: well-formed ranges, as built by the normalising constructor (a
+wrapped `unsigned` shift result is not: `C20Inst.illformed_arg_uint`) -/
+def Arg (r : Range α) : Prop := r.b ≤ r.e
 
-theorem make_arg [Min α] [Max α] [MinMaxLaws α] (a b : α) (ha : 0 ≤ a) (hb : 0 ≤ b) :
-    Arg (Range.make a b) := by
+theorem make_arg [Min α] [Max α] [MinMaxLaws α] (a b : α) : Arg (Range.make a b) := by
   simp only [Arg, Range.make, MinMaxLaws.min_def, MinMaxLaws.max_def]; grind
 
 /-- **component-level meaning of `addRange`**: the stored ranges that do not overlap `r` stay,
@@ -205,14 +233,14 @@ theorem add_spec (m : List (Range α)) (r : Range α) (hm : MultiRange.Inv m) (h
       · intro x hx
         rcases List.mem_append.mp hx with e | e
         · have := hm.1 x e; grind
-        · simp at e; subst e; exact ⟨hr.2, hr.1⟩
+        · simp at e; subst e; exact hr
       · rw [List.pairwise_append]
-        refine ⟨hm.2.imp R.disj, by simp, ?_⟩
+        refine ⟨hm.2.imp (fun h => Disj.ne (R.disj h)), by simp, ?_⟩
         intro x hx y hy
         simp at hy; rw [hy]
         have h1 := (overlap_false x r).mp (hno x hx)
         have h2 := hm.1 x hx
-        simp only [Disj, Arg] at *; grind
+        simp only [DisjNE, Disj, Arg] at *; grind
     have := clean_spec _ hpre
     refine ⟨this.1, ?_, ?_⟩
     · intro p; rw [this.2 p]
@@ -230,7 +258,7 @@ theorem add_spec (m : List (Range α)) (r : Range α) (hm : MultiRange.Inv m) (h
       · rintro ⟨(e | e), hne⟩
         · exact Or.inl ⟨e, hno y e⟩
         · subst e
-          refine Or.inr ⟨by have := hr.1; grind, fun p => ⟨Or.inl, ?_⟩⟩
+          refine Or.inr ⟨by have := hr; simp only [Arg] at this; grind, fun p => ⟨Or.inl, ?_⟩⟩
           rintro (hp | ⟨x, hx, hxo, _⟩)
           · exact hp
           · rw [hno x hx] at hxo; cases hxo
@@ -271,13 +299,10 @@ theorem restrict_spec (m : List (Range α)) (r : Range α) (hm : MultiRange.Inv 
     MultiRange.Inv (restrictTo m r) ∧ (∀ p, pts (restrictTo m r) p ↔ pts m p ∧ mem p r) ∧
     (∀ y, y ∈ restrictTo m r ↔ restrictK (· ∈ m) r y) := by
   unfold restrictTo
-  have hslice : ∀ x ∈ m, 0 ≤ (x.sliceWith r).b ∧ (x.sliceWith r).b ≤ (x.sliceWith r).e := by
+  have hslice : ∀ x ∈ m, (x.sliceWith r).b ≤ (x.sliceWith r).e := by
     intro x hx
     have h1 := hm.1 x hx
-    simp only [Arg] at hr
-    simp only [Range.sliceWith, Range.overlap]
-    have h0 : (0 : α) ≤ 0 := Std.le_refl _
-    grind
+    exact (slice_spec x r (by grind) hr).1
   have hpre : PreClean (m.map (·.sliceWith r)) := by
     constructor
     · intro y hy
@@ -293,11 +318,11 @@ theorem restrict_spec (m : List (Range α)) (r : Range α) (hm : MultiRange.Inv 
       have bY := slice_bounds y r (by grind)
       simp only [Arg] at hr
       simp only [R] at hxy
-      simp only [Disj]
+      simp only [DisjNE, Disj]
       rcases bx with e1 | e1 <;> rcases bY with e2 | e2
-      · rw [e1, e2]; exact Or.inl (Std.le_refl _)
-      · rw [e1]; grind
-      · rw [e2]; grind
+      · rw [e1]; exact Or.inl rfl
+      · rw [e1]; exact Or.inl rfl
+      · rw [e2]; exact Or.inr (Or.inl rfl)
       · grind
   have hc := clean_spec _ hpre
   refine ⟨hc.1, ?_, ?_⟩
@@ -307,22 +332,22 @@ theorem restrict_spec (m : List (Range α)) (r : Range α) (hm : MultiRange.Inv 
     · rintro ⟨y, ⟨x, hx, e⟩, hp⟩
       subst e
       have h1 := hm.1 x hx
-      have := (slice_spec x r (by grind) hr.1).2 p
+      have := (slice_spec x r (by grind) hr).2 p
       exact ⟨⟨x, hx, (this.mp hp).1⟩, (this.mp hp).2⟩
     · rintro ⟨⟨x, hx, hp⟩, hpr⟩
       have h1 := hm.1 x hx
-      exact ⟨_, ⟨x, hx, rfl⟩, ((slice_spec x r (by grind) hr.1).2 p).mpr ⟨hp, hpr⟩⟩
+      exact ⟨_, ⟨x, hx, rfl⟩, ((slice_spec x r (by grind) hr).2 p).mpr ⟨hp, hpr⟩⟩
   · intro y
     simp only [mem_clean, List.mem_map, restrictK]
     constructor
     · rintro ⟨⟨x, hx, e⟩, hne⟩
       subst e
       have h1 := hm.1 x hx
-      have hs := slice_spec x r (by grind) hr.1
+      have hs := slice_spec x r (by grind) hr
       exact ⟨by grind, x, hx, hs.2⟩
     · rintro ⟨hne, x, hx, hp⟩
       have h1 := hm.1 x hx
-      have hs := slice_spec x r (by grind) hr.1
+      have hs := slice_spec x r (by grind) hr
       have : y = x.sliceWith r := ext_of_mem y _ hne (fun p => by rw [hp p, hs.2 p])
       exact ⟨⟨x, hx, this.symm⟩, by grind⟩
 
@@ -343,9 +368,9 @@ theorem filter_spec (m : List (Range α)) (r : Range α) (hm : MultiRange.Inv m)
     simp only [pts, List.mem_filter]
     constructor
     · rintro ⟨x, ⟨hx, hc⟩, hp⟩
-      exact ⟨x, hx, hp, (contains_iff r x (hm.1 x hx).2).mp hc⟩
+      exact ⟨x, hx, hp, (contains_iff r x (hm.1 x hx)).mp hc⟩
     · rintro ⟨x, hx, hp, hq⟩
-      exact ⟨x, ⟨hx, (contains_iff r x (hm.1 x hx).2).mpr hq⟩, hp⟩
+      exact ⟨x, ⟨hx, (contains_iff r x (hm.1 x hx)).mpr hq⟩, hp⟩
 
 theorem inv_nil : MultiRange.Inv ([] : List (Range α)) :=
   ⟨(fun _ hx => nomatch hx), List.Pairwise.nil⟩
@@ -360,11 +385,6 @@ inductive Op (α : Type) where
   | filter (a b : α)
   | clear
 
-/-- end points in the non-negative universe -/
-def Op.ok : Op α → Prop
-  | .add a b | .restrict a b | .filter a b => 0 ≤ a ∧ 0 ≤ b
-  | .clear => True
-
 def step (m : List (Range α)) : Op α → List (Range α)
   | .add a b => addRange m (Range.make a b)
   | .restrict a b => restrictTo m (Range.make a b)
@@ -373,23 +393,141 @@ def step (m : List (Range α)) : Op α → List (Range α)
 
 def run (ops : List (Op α)) : List (Range α) := ops.foldl step []
 
-theorem step_inv (m : List (Range α)) (hm : MultiRange.Inv m) (o : Op α) (ho : o.ok) :
+theorem step_inv (m : List (Range α)) (hm : MultiRange.Inv m) (o : Op α) :
     MultiRange.Inv (step m o) := by
   cases o with
-  | add a b => exact (add_spec m _ hm (make_arg a b ho.1 ho.2)).1
-  | restrict a b => exact (restrict_spec m _ hm (make_arg a b ho.1 ho.2)).1
+  | add a b => exact (add_spec m _ hm (make_arg a b)).1
+  | restrict a b => exact (restrict_spec m _ hm (make_arg a b)).1
   | filter a b => exact (filter_spec m _ hm).1
   | clear => exact inv_nil
 
 /-- **mr_inv**: after any history the stored ranges are non-empty, ascending and pairwise
 disjoint -/
-theorem mr_inv (ops : List (Op α)) (hok : ∀ o ∈ ops, o.ok) : MultiRange.Inv (run ops) := by
+theorem mr_inv (ops : List (Op α)) : MultiRange.Inv (run ops) := by
   suffices h : ∀ m, MultiRange.Inv m → MultiRange.Inv (ops.foldl step m) from h [] inv_nil
   induction ops with
   | nil => intro m hm; exact hm
   | cons o os ih =>
     intro m hm
-    exact ih (fun o' ho' => hok o' (by simp [ho'])) _ (step_inv m hm o (hok o (by simp)))
+    exact ih _ (step_inv m hm o)
+
+/-! ## the call of `std::sort` inside `clean_` -/
+
+/-- what `addRange` / `restrictTo` hand to `clean_` (Range.h:456, 465) -/
+def cleanInput (m : List (Range α)) : Op α → List (Range α)
+  | .add a b =>
+    match mergeInto (Range.make a b) m with
+    | none => m ++ [(Range.make a b).clone]
+    | some (_, l) => l
+  | .restrict a b => m.map (·.sliceWith (Range.make a b))
+  | .filter _ _ => m
+  | .clear => []
+
+/-- **sort_input_ok**: in every history, at every call of `clean_`, the vector `std::sort` is
+given (the non-empty elements of what `addRange` / `restrictTo` built) consists of non-empty,
+pairwise disjoint ranges — for which the comparator is a strict weak order
+(`comparator_consistent`) and total (`comparator_total`): the precondition of `std::sort` holds,
+whatever the sign of the coordinates.  (Before the audit repair `std::sort` also received the empty
+ranges, and `[0,0[` next to `[-1,1[` violated the precondition: `comparator_inconsistent_negative`.) -/
+theorem sort_input_ok (ops : List (Op α)) (o : Op α) :
+    let l := cleanInput (run ops) o
+    (∀ a b, o = .add a b → step (run ops) o = clean l) ∧
+    (∀ a b, o = .restrict a b → step (run ops) o = clean l) ∧
+    (∀ x ∈ l.filter (fun x => !x.isEmpty), x.b < x.e) ∧
+    (l.filter (fun x => !x.isEmpty)).Pairwise Disj := by
+  have hm := mr_inv ops
+  generalize run ops = m at hm
+  intro l
+  have hpre : PreClean l := by
+    cases o with
+    | add a b =>
+      have hr : Arg (Range.make a b) := make_arg a b
+      show PreClean (match mergeInto (Range.make a b) m with
+        | none => m ++ [(Range.make a b).clone] | some (_, l) => l)
+      cases h : mergeInto (Range.make a b) m with
+      | none =>
+        have hno := (mergeInto_none _ m).mp h
+        constructor
+        · intro x hx
+          rcases List.mem_append.mp hx with e | e
+          · have := hm.1 x e; grind
+          · simp at e; subst e; exact hr
+        · rw [List.pairwise_append]
+          refine ⟨hm.2.imp (fun h => Disj.ne (R.disj h)), by simp, ?_⟩
+          intro x hx y hy
+          simp at hy; rw [hy]
+          have h1 := (overlap_false x _).mp (hno x hx)
+          have h2 := hm.1 x hx
+          simp only [DisjNE, Disj, Arg] at *; grind
+      | some v =>
+        obtain ⟨mg, l'⟩ := v
+        exact (mergeInto_some _ hr m hm mg l' h).1
+    | restrict a b =>
+      have hr : Arg (Range.make a b) := make_arg a b
+      show PreClean (m.map (·.sliceWith (Range.make a b)))
+      constructor
+      · intro y hy
+        simp only [List.mem_map] at hy
+        obtain ⟨x, hx, e⟩ := hy
+        subst e
+        have h1 := hm.1 x hx
+        exact (slice_spec x _ (by grind) hr).1
+      · rw [List.pairwise_map]
+        apply List.Pairwise.imp_of_mem _ hm.2
+        intro x y hx hy hxy
+        have h1 := hm.1 x hx
+        have h2 := hm.1 y hy
+        have bx := slice_bounds x (Range.make a b) (by grind)
+        have bY := slice_bounds y (Range.make a b) (by grind)
+        simp only [R] at hxy
+        simp only [DisjNE, Disj]
+        rcases bx with e1 | e1 <;> rcases bY with e2 | e2
+        · rw [e1]; exact Or.inl rfl
+        · rw [e1]; exact Or.inl rfl
+        · rw [e2]; exact Or.inr (Or.inl rfl)
+        · grind
+    | filter a b =>
+      show PreClean m
+      exact ⟨fun x hx => by have := hm.1 x hx; grind, hm.2.imp (fun h => Disj.ne (R.disj h))⟩
+    | clear =>
+      show PreClean ([] : List (Range α))
+      exact ⟨(by intro x hx; cases hx), List.Pairwise.nil⟩
+  have hin := clean_sort_input l hpre
+  refine ⟨?_, ?_, hin.1, hin.2⟩
+  · intro a b e; subst e
+    show addRange m _ = clean (match mergeInto (Range.make a b) m with
+        | none => m ++ [(Range.make a b).clone] | some (_, l) => l)
+    unfold addRange
+    cases mergeInto (Range.make a b) m with
+    | none => rfl
+    | some v => rfl
+  · intro a b e; subst e; rfl
+
+/-- **any_sort**: the insertion sort of the model stands for *any* correct sort: whatever
+permutation of the vector `std::sort` returns, if it has no inversion for the source comparator it
+is the model's `clean` — so the stored vector does not depend on the sorting algorithm (libstdc++
+switches from insertion sort to introsort at 17 elements) -/
+theorem any_sort (l l' : List (Range α)) (h : PreClean l)
+    (hp : l'.Perm (l.filter (fun x => !x.isEmpty)))
+    (hs : l'.Pairwise (fun x y => y.lt x = false)) : l' = clean l := by
+  have hin := clean_sort_input l h
+  have hd : l'.Pairwise Disj := by
+    apply hp.symm.pairwise hin.2
+    intro x y hxy; exact Disj.symm hxy
+  have hboth := hs.and hd
+  apply sorted_ext _ _ _ (clean_spec l h).1
+  · intro y
+    rw [mem_clean, hp.mem_iff, List.mem_filter]
+    simp [Range.isEmpty]
+  · refine ⟨fun x hx => hin.1 x (hp.mem_iff.mp hx), ?_⟩
+    apply List.Pairwise.imp_of_mem _ hboth
+    intro x y hx hy hxy
+    have hx1 := hin.1 x (hp.mem_iff.mp hx)
+    have hy1 := hin.1 y (hp.mem_iff.mp hy)
+    obtain ⟨h1, h2⟩ := hxy
+    simp only [Range.lt, Bool.or_eq_false_iff, decide_eq_false_iff_not] at h1
+    simp only [Disj, R] at *
+    grind
 
 /-- the reference semantics on components: a set of ranges, updated declaratively -/
 def specStepK (K : Range α → Prop) : Op α → (Range α → Prop)
@@ -406,7 +544,7 @@ theorem addK_congr (K K' : Range α → Prop) (h : ∀ y, K y ↔ K' y) (r y : R
 /-- **mr_refines**: for every history of add / restrict / **filter** / clear the set of stored
 ranges is exactly what the declarative component semantics yields; with `mr_inv` (ascending
 order) this determines the stored list completely (`mr_canonical`) -/
-theorem mr_refines (ops : List (Op α)) (hok : ∀ o ∈ ops, o.ok) :
+theorem mr_refines (ops : List (Op α)) :
     ∀ y, y ∈ run ops ↔ ops.foldl specStepK (fun _ => False) y := by
   suffices h : ∀ (m : List (Range α)) (K : Range α → Prop), MultiRange.Inv m → (∀ y, y ∈ m ↔ K y) →
       ∀ y, y ∈ ops.foldl step m ↔ ops.foldl specStepK K y from
@@ -415,23 +553,22 @@ theorem mr_refines (ops : List (Op α)) (hok : ∀ o ∈ ops, o.ok) :
   | nil => intro m K _ hK; exact hK
   | cons o os ih =>
     intro m K hm hK
-    have ho := hok o (by simp)
     have hK' : (fun y => y ∈ m) = K := funext fun y => propext (hK y)
     simp only [List.foldl_cons]
-    apply ih (fun o' ho' => hok o' (by simp [ho'])) _ _ (step_inv m hm o ho)
+    apply ih _ _ (step_inv m hm o)
     intro y
     cases o with
-    | add a b => rw [← hK']; exact (add_spec m _ hm (make_arg a b ho.1 ho.2)).2.2 y
-    | restrict a b => rw [← hK']; exact (restrict_spec m _ hm (make_arg a b ho.1 ho.2)).2.2 y
+    | add a b => rw [← hK']; exact (add_spec m _ hm (make_arg a b)).2.2 y
+    | restrict a b => rw [← hK']; exact (restrict_spec m _ hm (make_arg a b)).2.2 y
     | filter a b => rw [← hK']; exact (filter_spec m _ hm).2.1 y
     | clear => simp [step, specStepK, RangeCollection.clear]
 
 /-- the stored list is the only ascending list of the component set: two implementations that
 both satisfy `mr_inv` and `mr_refines` return the same vector -/
-theorem mr_canonical (ops : List (Op α)) (hok : ∀ o ∈ ops, o.ok) (l : List (Range α))
+theorem mr_canonical (ops : List (Op α)) (l : List (Range α))
     (hl : MultiRange.Inv l) (h : ∀ y, y ∈ l ↔ ops.foldl specStepK (fun _ => False) y) :
     l = run ops :=
-  sorted_ext l (run ops) hl (mr_inv ops hok) (fun y => by rw [h y, mr_refines ops hok y])
+  sorted_ext l (run ops) hl (mr_inv ops) (fun y => by rw [h y, mr_refines ops y])
 
 /-- the reference semantics on points: a set of points, updated by union / intersection; a
 `filterWithin` is not a function of the point set alone (touching ranges are stored separately),
@@ -449,47 +586,46 @@ def Op.isFilter : Op α → Bool
 /-- **mr_denotes_from**: from any state satisfying the invariant (in particular any reachable
 state, also after a `filterWithin`), every continuation by add / restrict / clear denotes the
 set-level fold of unions and intersections applied to the points of that state -/
-theorem mr_denotes_from (ops : List (Op α)) (hok : ∀ o ∈ ops, o.ok) (hnf : ∀ o ∈ ops, o.isFilter = false)
+theorem mr_denotes_from (ops : List (Op α)) (hnf : ∀ o ∈ ops, o.isFilter = false)
     (m : List (Range α)) (S : α → Prop) (hm : MultiRange.Inv m) (hS : ∀ p, pts m p ↔ S p) :
     ∀ p, pts (ops.foldl step m) p ↔ ops.foldl specStep S p := by
   induction ops generalizing m S with
   | nil => exact hS
   | cons o os ih =>
-    have ho := hok o (by simp)
     have hf := hnf o (by simp)
     simp only [List.foldl_cons]
     cases o with
     | add a b =>
-      have := add_spec m _ hm (make_arg a b ho.1 ho.2)
-      apply ih (fun o' ho' => hok o' (by simp [ho'])) (fun o' ho' => hnf o' (by simp [ho'])) _ _ this.1
+      have := add_spec m _ hm (make_arg a b)
+      apply ih (fun o' ho' => hnf o' (by simp [ho'])) _ _ this.1
       intro p; show pts _ p ↔ _; rw [this.2.1 p, hS p]; simp [specStep, mem, Range.make]
     | restrict a b =>
-      have := restrict_spec m _ hm (make_arg a b ho.1 ho.2)
-      apply ih (fun o' ho' => hok o' (by simp [ho'])) (fun o' ho' => hnf o' (by simp [ho'])) _ _ this.1
+      have := restrict_spec m _ hm (make_arg a b)
+      apply ih (fun o' ho' => hnf o' (by simp [ho'])) _ _ this.1
       intro p; show pts _ p ↔ _; rw [this.2.1 p, hS p]; simp [specStep, mem, Range.make]
     | filter a b => simp [Op.isFilter] at hf
     | clear =>
-      apply ih (fun o' ho' => hok o' (by simp [ho'])) (fun o' ho' => hnf o' (by simp [ho'])) _ _ inv_nil
+      apply ih (fun o' ho' => hnf o' (by simp [ho'])) _ _ inv_nil
       intro p; simp [pts, specStep]
 
 /-- **mr_denotes**: for every history of add / restrict / clear from the empty collection the
 stored ranges denote exactly the union of everything added, intersected with every restriction
 applied since -/
-theorem mr_denotes (ops : List (Op α)) (hok : ∀ o ∈ ops, o.ok) (hnf : ∀ o ∈ ops, o.isFilter = false) :
+theorem mr_denotes (ops : List (Op α)) (hnf : ∀ o ∈ ops, o.isFilter = false) :
     ∀ p, pts (run ops) p ↔ ops.foldl specStep (fun _ => False) p :=
-  mr_denotes_from ops hok hnf [] _ inv_nil (by intro p; simp [pts])
+  mr_denotes_from ops hnf [] _ inv_nil (by intro p; simp [pts])
 
 /-- **mr_denotes_all**: for every history, *including filters*, the points of the multi-range are
 the points of the components of the declarative semantics; a filter step keeps the points of
 exactly those components that are subsets of the window (`filter_spec`), and the history may go
 on with any operation afterwards -/
-theorem mr_denotes_all (ops : List (Op α)) (hok : ∀ o ∈ ops, o.ok) :
+theorem mr_denotes_all (ops : List (Op α)) :
     ∀ p, pts (run ops) p ↔ ∃ y, ops.foldl specStepK (fun _ => False) y ∧ mem p y := by
   intro p
   simp only [pts]
   constructor
-  · rintro ⟨y, hy, hp⟩; exact ⟨y, (mr_refines ops hok y).mp hy, hp⟩
-  · rintro ⟨y, hy, hp⟩; exact ⟨y, (mr_refines ops hok y).mpr hy, hp⟩
+  · rintro ⟨y, hy, hp⟩; exact ⟨y, (mr_refines ops y).mp hy, hp⟩
+  · rintro ⟨y, hy, hp⟩; exact ⟨y, (mr_refines ops y).mpr hy, hp⟩
 
 /-! ## no new coordinates: the stored end points come from the arguments (or are the literal 0) -/
 
